@@ -171,7 +171,18 @@ var styles = []shadow.StyleD{
 	{Fg: tcell.Color(1000) | tcell.ColorValid, Bg: tcell.ColorSpecial | 99, URL: "http://h/p?a=1&b=%20;c", URLI: "x-y_z.1"}, // 11 odd colours, url with ; and %
 	{Fg: tcell.NewRGBColor(0, 0, 0), Attrs: tcell.AttrBold | tcell.AttrBlink | tcell.AttrReverse | tcell.AttrDim | tcell.AttrItalic | tcell.AttrStrikeThrough, UL: 3, ULColor: tcell.ColorReset}, // 12 everything
 	{URL: "x", URLI: ""}, // 13
+	// 14..21: a base style and seven variants differing from it in exactly one field
+	{Fg: tcell.ColorRed, Bg: tcell.ColorNavy, Attrs: tcell.AttrBold, UL: 3, ULColor: tcell.NewRGBColor(200, 0, 0), URL: "http://u", URLI: "i"},
+	{Fg: tcell.ColorGreen, Bg: tcell.ColorNavy, Attrs: tcell.AttrBold, UL: 3, ULColor: tcell.NewRGBColor(200, 0, 0), URL: "http://u", URLI: "i"},
+	{Fg: tcell.ColorRed, Bg: tcell.ColorGreen, Attrs: tcell.AttrBold, UL: 3, ULColor: tcell.NewRGBColor(200, 0, 0), URL: "http://u", URLI: "i"},
+	{Fg: tcell.ColorRed, Bg: tcell.ColorNavy, Attrs: tcell.AttrBold | tcell.AttrItalic, UL: 3, ULColor: tcell.NewRGBColor(200, 0, 0), URL: "http://u", URLI: "i"},
+	{Fg: tcell.ColorRed, Bg: tcell.ColorNavy, Attrs: tcell.AttrBold, UL: 2, ULColor: tcell.NewRGBColor(200, 0, 0), URL: "http://u", URLI: "i"},
+	{Fg: tcell.ColorRed, Bg: tcell.ColorNavy, Attrs: tcell.AttrBold, UL: 3, ULColor: tcell.NewRGBColor(0, 200, 0), URL: "http://u", URLI: "i"},
+	{Fg: tcell.ColorRed, Bg: tcell.ColorNavy, Attrs: tcell.AttrBold, UL: 3, ULColor: tcell.NewRGBColor(200, 0, 0), URL: "http://v", URLI: "i"},
+	{Fg: tcell.ColorRed, Bg: tcell.ColorNavy, Attrs: tcell.AttrBold, UL: 3, ULColor: tcell.NewRGBColor(200, 0, 0), URL: "http://u", URLI: "j"},
 }
+
+const nBaseStyles = 14
 
 type scenario struct {
 	name   string
@@ -195,6 +206,18 @@ func scenarios() []scenario {
 		// the same alphabet from a painted screen (every cell clean, holding 'b')
 		out = append(out, scenario{"W2-wide-from-painted-4x1", 4, 1, ops, 4, 5, []op{{kind: "fill", r: 'b'}, {kind: "show"}}})
 	}
+	{ // F: one style field at a time on a single cell (set base; show; set variant; show)
+		var ops []op
+		for si := nBaseStyles; si < len(styles); si++ {
+			ops = append(ops, op{kind: "set", x: 0, y: 0, r: 'a', st: si})
+		}
+		ops = append(ops, show)
+		out = append(out, scenario{"F-style-fields-2x1", 2, 1, ops, 4, 5, nil})
+	}
+	{ // E: LINES / COLUMNS set to values that differ from the tty's size
+		ops := []op{{kind: "set", x: 0, y: 0, r: 'a'}, {kind: "set", x: 2, y: 1, r: 'z', st: 1}, {kind: "set", x: 1, y: 0, r: '世'}, {kind: "cursor", x: 2, y: 1}, show, sync}
+		out = append(out, scenario{"E-env-size-hints-3x2", 3, 2, ops, 4, 5, nil})
+	}
 	{ // C: colour cache without direct colour: two cells, three non-palette colours
 		var ops []op
 		for _, si := range []int{2, 3, 7} {
@@ -205,7 +228,7 @@ func scenarios() []scenario {
 	}
 	{ // S: style cache / colours on 2x2
 		var ops []op
-		for si := range styles {
+		for si := range styles[:nBaseStyles] {
 			ops = append(ops, op{kind: "set", x: 0, y: 0, r: 'a', st: si}, op{kind: "set", x: 1, y: 1, r: 'b', st: si})
 		}
 		for _, si := range []int{0, 1, 3, 4, 6} {
@@ -232,7 +255,7 @@ func scenarios() []scenario {
 	}
 	{ // L: lock regions on 3x2
 		var ops []op
-		for _, r := range [][4]int{{0, 0, 1, 1}, {1, 0, 2, 2}, {-1, -1, 3, 2}, {2, 1, 5, 5}} {
+		for _, r := range [][4]int{{0, 0, 1, 1}, {1, 0, 2, 2}, {-1, -1, 3, 2}, {2, 1, 5, 5}, {0, 1, 2, 1}} { // the last one: the neighbour of the bottom-right corner, not the corner
 			ops = append(ops, op{kind: "lock", x: r[0], y: r[1], w: r[2], h: r[3], lock: true}, op{kind: "lock", x: r[0], y: r[1], w: r[2], h: r[3], lock: false})
 		}
 		ops = append(ops, op{kind: "set", x: 0, y: 0, r: 'a', st: 1}, op{kind: "set", x: 1, y: 0, r: 'b'}, op{kind: "set", x: 2, y: 1, r: 'c', st: 2}, op{kind: "set", x: 1, y: 1, r: 'd'},
@@ -285,6 +308,12 @@ func newSysLocale(cfg *config, sc *scenario, locale, charset string) *dsys {
 	os.Setenv("LC_ALL", locale)
 	os.Unsetenv("LINES")
 	os.Unsetenv("COLUMNS")
+	if strings.HasPrefix(sc.name, "E-") {
+		// the size hints disagree with what the tty reports (they are meant for terminals
+		// that cannot report their size; the tty's answer wins once it has one)
+		os.Setenv("COLUMNS", fmt.Sprint(sc.w+2))
+		os.Setenv("LINES", fmt.Sprint(sc.h+1))
+	}
 	os.Unsetenv("TCELL_ALTSCREEN")
 	if cfg.truecolor {
 		os.Unsetenv("TCELL_TRUECOLOR")
@@ -591,6 +620,11 @@ func (d *dsys) checkWritten(full bool, want []shadow.Want) string {
 			}
 			sc := d.sh.At(x, y)
 			if sc.Lock {
+				if d.cfg.brTrick && y == H-1 && x < W-1 && !d.sh.At(W-1, H-1).Lock && d.term.At(W-1, H-1).Stamp > d.lastStamp {
+					// the bottom-right cell was painted in this block by inserting a character:
+					// that detour necessarily writes the cell(s) left of the corner
+					return fmt.Sprintf("locked corner neighbour written: (%d,%d) is locked and was written by the bottom-right insert-character detour of Show()", x, y)
+				}
 				return fmt.Sprintf("locked cell written: (%d,%d) was written by Show() while locked", x, y)
 			}
 			if allowed(x, y) {
@@ -742,7 +776,7 @@ func c09Scenarios() []scenario {
 	ops := []op{
 		{kind: "set", x: 0, r: 'e', comb: []rune{0x0301, 0x200d}}, {kind: "set", x: 1, r: 'a', comb: []rune{0x0300, 0x0301, 0x0302, 0x0303}},
 		{kind: "set", x: 2, r: '世', comb: []rune{0x0301}}, {kind: "set", x: 1, r: 'x', st: 10}, {kind: "set", x: 0, r: 'y', st: 11}, {kind: "set", x: 2, r: 'z', st: 12},
-		{kind: "set", x: 3, r: '%', st: 13}, {kind: "setstyle", st: 11}, {kind: "fill", r: 0x85, st: 10}, {kind: "cstyle", cs: 9, col: tcell.NewRGBColor(255, 255, 255)},
+		{kind: "set", x: 3, r: '%', st: 13}, {kind: "setstyle", st: 11}, {kind: "fill", r: 0x85, st: 10}, {kind: "cstyle", cs: 9, col: tcell.NewRGBColor(255, 255, 255)}, {kind: "cstyle", cs: 1, col: tcell.Color(1000) | tcell.ColorValid},
 		{kind: "cursor", x: 1, y: 0}, show, {kind: "sync"},
 	}
 	return []scenario{{"X-extreme-values-4x1", 4, 1, ops, 3, 4, nil}}
@@ -994,8 +1028,12 @@ func main() {
 					if sc.name[0] == 'K' {
 						depth = 2
 					}
-					if sc.name[0] == 'L' || sc.name[0] == 'M' || strings.HasPrefix(sc.name, "K2") {
+					if sc.name[0] == 'L' {
+						depth = sc.dq // show; lock; set; show
+					}
+					if (sc.name[0] == 'L' && !cfg.brTrick) || sc.name[0] == 'M' || sc.name[0] == 'F' || sc.name[0] == 'E' || strings.HasPrefix(sc.name, "K2") {
 						continue // independent of the description: covered on the reference configuration
+						// (locks do depend on it where the bottom-right cell is painted through its neighbour)
 					}
 					if sc.name[0] == 'C' && cfg.caps.Colors < 8 {
 						continue
